@@ -1,9 +1,13 @@
 (** Correspondence driver for C03: a filespace is built from the memfs root by a list of
     constructors (Filespace(p), NewSubFS, NewReadonlyFS, NewEncryptFS); operations with raw path
     arguments are issued through it; compared: each result class/answer and the ROOT tree. *)
-From GC Require Import Common.Base Model.Paths Model.Fs Model.Views Corr.FsCorr.
+From GC Require Import Common.Base Model.Paths Model.Fs Model.Views Model.ViewsCache Corr.FsCorr.
 
-Inductive case := CView (init : fs) (ks : list ctor) (steps : list (op * out)) (final : fs).
+Inductive case :=
+| CView (init : fs) (ks : list ctor) (steps : list (op * out)) (final : fs)
+  (** resolve probe: through the stack built by [ks] (caches allowed) a WriteFile with raw
+      argument [s] succeeded and the one file it changed in the root backend is [p] *)
+| CRes (ks : list cctor) (s : bytes) (p : path).
 
 Fixpoint run_steps (c : chain) (t : fs) (l : list (op * out)) : option fs :=
   match l with
@@ -26,6 +30,13 @@ Definition check (c : case) : bool :=
       (* the view could not be created: every step is reported as an error, nothing changes *)
       forallb (fun so => out_eqb (snd so) RErr) steps && tree_eqb init final
     end
+  | CRes ks s p =>
+    match cbuild [] ks with
+    | Some ch =>
+      negb (has_ro ch) &&
+      match resolve true ch s with Some q => path_eqb q p | None => false end
+    | None => false
+    end
   end.
 
 Definition debug (c : case) :=
@@ -35,4 +46,5 @@ Definition debug (c : case) :=
     | Some ch => (Some ch, map (fun so => snd (chain_step ch init (fst so))) (firstn 1 steps))
     | None => (None, [])
     end
+  | CRes ks s p => (cbuild [] ks, [])
   end.
